@@ -1,5 +1,6 @@
 import HypatiaProofs.Lemmas.QueryCompl
 import HypatiaProofs.Lemmas.QueryEndToEnd
+import HypatiaProofs.Lemmas.QuerySem
 import HypatiaProofs.Lemmas.QueryEndToEndExample
 import HypatiaProofs.Properties.C03
 
@@ -83,6 +84,20 @@ theorem c04_notall_violates_complement :
     applyQ cat (.cmp .all 0 (.many [1, 2])) = .ok [1] ∧
     applyQ cat (.not (.cmp .all 0 (.many [1, 2]))) = .ok [1] ∧
     docs cat = [3, 2, 1] := ⟨rfl, rfl, rfl⟩
+
+/-- **`_apply` computes the set-theoretic reading.**  `sem` reads the tree as the property does: a comparator
+= its own meaning, `And` = intersection, `Or` = union of the operands' sets, `Not` = complement in the catalog's
+documents.  For every catalog and every tree of any depth and arity whose comparators are implemented by their
+index classes: `sem` exists and `_apply` returns exactly its members – for trees containing a `Not` under the
+hypothesis of the complement clause (`Total`).
+
+Partial: `wellTypedStrict` excludes `All`/`NotAll` (finding D2, `c04_notall_violates_complement`); full
+statement: the same with `wellTyped`. -/
+theorem c04_apply_is_sem_partial (cat : Catalog) (q : Q) (hw : wellTypedStrict cat q = true)
+    (hT : Total cat ∨ noNot q = true) :
+    ∃ r r', applyQ cat q = .ok r ∧ sem cat q = .ok r' ∧ ∀ d, d ∈ r ↔ d ∈ r' := by
+  obtain ⟨r', h1, h2⟩ := sem_val cat _ q (Nat.le_refl _) hw hT
+  exact ⟨val cat q, r', applyQ_val (strict_wellTyped hw), h1, fun d => (h2 d).symm⟩
 
 /-! ## composition with C01/C02/C13/C03: leaves answered by the index models -/
 
